@@ -15,7 +15,7 @@ class RR(MultiQueueScheduler):
         flows: List[int],
         debug: bool = False,
     ):
-        super().__init__(env, rate, debug)
+        super().__init__(env, rate, debug=debug)
         self.flows = flows
         self.proc = env.process(self.run(env))
 
